@@ -34,7 +34,7 @@ func stripMeta(t *dump.Tree) *dump.Tree {
 func C17(tier string) int {
 	rep := report.New("C17", tier, "model_checking")
 	thorough := tier != "quick"
-	rep.Assume("bbolt's API calls are atomic; schedules interleave at DbImpl.reloadLock operations, tracked spawns (restore listeners) and harness yield points inside transaction bodies")
+	rep.Assume("schedules interleave at DbImpl.reloadLock operations, at bbolt's writer, meta and mmap locks (rwlock, metalock, mmaplock - so waiting for a transaction to end is a disabled thread), at tracked spawns (restore listeners) and at harness yield points inside transaction bodies; between those points bbolt's calls are atomic")
 	bound := 2
 	if thorough {
 		bound = 3
